@@ -12,7 +12,7 @@
 From Coq Require Import List NArith ZArith Permutation.
 Import ListNotations.
 Require Import V.base.Bytes V.gen.Hagrid V.model.Transcript V.proofs.Transcript_proofs.
-Require Import V.model.Session V.model.Przs V.proofs.Session_proofs V.proofs.Przs_proofs.
+Require Import V.gen.SessionConsts V.model.Session V.model.Przs V.proofs.Session_proofs V.proofs.Przs_proofs.
 Local Open Scope N_scope.
 
 (* ---- agreement: all completing parties compute the same common seed, session id and
